@@ -517,6 +517,16 @@ func c08Strata() []*gast.Grammar {
 		mk(r("S", gast.S(gast.Lab("a", gast.Ref("E1")), gast.Star(gast.Dot()))),
 			r("E1", gast.C(act(gast.S(gast.Lab("a", gast.Ref("E1")), gast.L("+"), gast.Lab("b", gast.Ref("At"))), 1, mon.Spec{}), gast.S(gast.Lab("a", gast.Ref("E1")), gast.L("-"), gast.Ref("At")), gast.Ref("At"), gast.Star(gast.L(" ")))),
 			r("At", act(gast.Plus(gast.Cl(&gast.ClassSpec{Ranges: [][2]rune{{'0', '9'}}})), 2, mon.Spec{R: 2}))),
+		// a left-recursive rule whose operands are another left-recursive rule that lists a non-recursive
+		// alternative BEFORE its recursive one (a pass of the inner rule may never read its seed)
+		mk(r("S", gast.S(gast.Lab("a", gast.Ref("E1")), gast.NotE(gast.Dot()))),
+			r("E1", gast.C(act(gast.S(gast.Lab("a", gast.Ref("E1")), gast.L("+"), gast.Lab("b", gast.Ref("T"))), 1, mon.Spec{}), gast.Ref("T"))),
+			r("T", gast.C(gast.S(gast.Ref("N"), gast.NotE(gast.L("*"))), act(gast.S(gast.Lab("a", gast.Ref("T")), gast.L("*"), gast.Lab("b", gast.Ref("N"))), 2, mon.Spec{}), gast.Ref("N"))),
+			r("N", act(gast.Plus(gast.Cl(&gast.ClassSpec{Ranges: [][2]rune{{'0', '9'}}})), 3, mon.Spec{R: 2}))),
+		mk(r("S", gast.S(gast.Lab("a", gast.Ref("E1")), gast.Star(gast.Dot()))),
+			r("E1", gast.C(gast.S(gast.Ref("At"), gast.AndE(gast.L(";"))), act(gast.S(gast.Lab("a", gast.Ref("E1")), gast.L("-"), gast.Lab("b", gast.Ref("E2"))), 1, mon.Spec{}), gast.Ref("E2"))),
+			r("E2", gast.C(gast.S(gast.Ref("At"), gast.NotE(gast.Cl(gast.Chars("/%")))), act(gast.S(gast.Lab("a", gast.Ref("E2")), gast.Cl(gast.Chars("/%")), gast.Lab("b", gast.Ref("At"))), 2, mon.Spec{}), gast.Ref("At"))),
+			r("At", act(gast.Plus(gast.Cl(&gast.ClassSpec{Ranges: [][2]rune{{'0', '9'}}})), 3, mon.Spec{R: 2}))),
 		// recursive tails that start with a case-insensitive literal or class, written in either case
 		// (the generator lower-cases them; the input keeps its own case)
 		mk(r("S", gast.S(gast.Lab("a", gast.Ref("Cond")), gast.NotE(gast.Dot()))),
